@@ -1,3 +1,5 @@
+#[cfg(feature = "iggy_verif")]
+use crate::verif::tokio;
 use crate::client::{
     Client, ConsumerGroupClient, ConsumerOffsetClient, MessageClient, PartitionClient,
     PersonalAccessTokenClient, StreamClient, SystemClient, TopicClient, UserClient,
